@@ -15,7 +15,7 @@ structure SecondlyEArgs (a : Args) : Prop where
   freq : a.freq = 6
   interval : 1 ≤ a.interval
   valid : a.dtstart.Valid
-  weekno : WArg a
+  byweekno : a.byweekno = none
   easter : ∃ el, a.byeaster = some el ∧ el ≠ [] ∧ ∀ o ∈ el, -80 ≤ o ∧ o ≤ 250
   monthday_nz : ∀ x ∈ a.bymonthday.getD [], x ≠ 0
   byhour : a.byhour = none
